@@ -296,6 +296,12 @@ def invalid_sets(v):
             d = dict(full)
             d[keys[b]] = d[keys[a]]
             out.append(('duplicate-%s-%s' % (keys[a], keys[b]), d))
+    # a character that is missing although its key is there: empty, None, two characters
+    for k in keys:
+        for label, val in (('empty', ''), ('none', None), ('two-characters', '<>')):
+            d = dict(full)
+            d[k] = val
+            out.append(('no-character-%s-%s' % (label, k), d))
     out.append(('not-a-mapping-str', '!$*@%'))
     out.append(('not-a-mapping-list', ['!', '$', '*', '@', '%']))
     out.append(('not-a-mapping-none-like', 0))
